@@ -41,7 +41,7 @@ def cases(tier, seed, shard, nshards):
                     continue  # no group exists yet: same as shorter sequences
                 idx += 1
                 if idx % nshards == shard:
-                    yield {"keys": keys, "key": None, "ops": list(ops), "flav": "list", "susp": 0}
+                    yield {"keys": keys, "key": None if idx % 3 else "noneodd", "ops": list(ops), "flav": "list", "susp": 0}
     rng = random.Random(f"C16-{seed}-{shard}")
     for _ in range(N_RANDOM[tier] // nshards):
         alpha = rng.choice([2, 3, 4])
@@ -50,7 +50,7 @@ def cases(tier, seed, shard, nshards):
         for _ in range(rng.randint(1, 15)):
             r = rng.random()
             ops.append("adv" if r < 0.35 else "g-1" if r < 0.75 else rng.choice(["g-2", "g0", "g-3"]))
-        yield {"keys": keys, "key": rng.choice([None, "half", "ahalf", "aident"]), "ops": ops,
+        yield {"keys": keys, "key": rng.choice([None, "half", "ahalf", "aident", "noneodd", "anoneodd", "tuple"]), "ops": ops,
                "flav": rng.choice(["list", "async_gen", "async_class", "sync_iter"]), "susp": rng.choice([0, 0, 1])}
 
 
@@ -59,6 +59,10 @@ def _key_impl(kname):
         return None
     if kname.endswith("half"):
         return lambda x: x.key // 2
+    if kname.endswith("noneodd"):
+        return lambda x: None if x.key % 2 else x.key  # None is a legitimate, reflexive key
+    if kname.endswith("tuple"):
+        return lambda x: (x.key // 2, None)
     return lambda x: x.key
 
 
